@@ -1,6 +1,7 @@
 import SwcVerif.Gen.AlgoResampleTree
 import SwcVerif.Refine.Resample
 import SwcVerif.Refine.PyLemmas
+import SwcVerif.Refine.Assemble
 /-! # C16 — `TreeSmoother.__call__` as translated (`Gen.Algo.smooth_tree`) is a fold over the branches
 
 `for br in x.get_branches(): smoothed = self.trans(br); x.ndata[..][br.origin_id()] = smoothed.x()/y()/z()`:
@@ -147,3 +148,55 @@ theorem smooth_tree_eq (k : Nat) (hk : 1 ≤ k) (fuel : Nat) (ids pids : List In
   simp only [smooth_tree, smooth_tree.body, seq, Py.bind, hg, e, Py.finish, Option.map_some]
 
 end RefineSmoothTree
+
+/-! # `Rep` from the flat data: every acyclic branch-tree table represents a rose tree, whatever `pair` does -/
+namespace RefineAsm
+open Py Gen.Algo Asm
+section
+variable {σ : Type} [Inhabited σ] (pair : σ → List (List Int) → List Int → σ × List ((List Int) × Int))
+  (dupFirst dupLast : List Int → Int → Bool) (ids pids : List Int) (branches : Py.Dict Int (List (List Int)))
+
+/-- `Rep` does not look at the id and the sample count of the node itself -/
+theorem Rep.relabel (i i' : Int) (m m' : Nat) (ks : List BT) (h : Int)
+    (hr : Rep pair dupFirst dupLast ids pids branches (.node i m ks) h) :
+    Rep pair dupFirst dupLast ids pids branches (.node i' m' ks) h := by
+  simp only [Rep] at hr ⊢; exact hr
+
+/-- what `Rep` needs of a key node `h` of the data, `pair` being ANY callback: it has a row, the list of pairs `pair` returns for it does not
+depend on the callback state, and every node `pair` hands back is again such a node, of smaller rank -/
+def Step (Dom : Int → Prop) (rk : Int → Nat) (h : Int) : Prop :=
+  ∃ cs key, node_children ids pids h = some cs ∧ Py.idx ids h = some key ∧
+    (∀ s s' : σ, (pair s (Py.Dict.getD branches key []) cs).2 = (pair s' (Py.Dict.getD branches key []) cs).2) ∧
+    ∀ s : σ, ∀ pr ∈ (pair s (Py.Dict.getD branches key []) cs).2, Dom pr.2 ∧ rk pr.2 < rk h
+
+/-- **every ranked table represents a rose tree**: if every node of `Dom` satisfies `Step`, every node of `Dom` is the handle of some `BT`
+(built along the pairs `pair` returns; its sample counts are the trimmed lengths) -/
+theorem rep_exists (Dom : Int → Prop) (rk : Int → Nat)
+    (hstep : ∀ h, Dom h → Step pair ids pids branches Dom rk h) :
+    ∀ (n : Nat) (h : Int), Dom h → rk h < n → ∃ t, Rep pair dupFirst dupLast ids pids branches t h := by
+  intro n
+  induction n with
+  | zero => intro h _ hr; omega
+  | succ n ih =>
+    intro h hd hr
+    obtain ⟨cs, key, hc, hk, hind, hdom⟩ := hstep h hd
+    have hl : ∀ prs : List (List Int × Int), (∀ pr ∈ prs, Dom pr.2 ∧ rk pr.2 < rk h) →
+        ∃ ks, RepL pair dupFirst dupLast ids pids branches ks h prs := by
+      intro prs
+      induction prs with
+      | nil => intro _; exact ⟨[], by simp [RepL]⟩
+      | cons pr prs ihp =>
+        intro hall
+        obtain ⟨ks, hks⟩ := ihp (fun q hq => hall q (by simp [hq]))
+        have hpr := hall pr (by simp)
+        obtain ⟨t, ht⟩ := ih pr.2 hpr.1 (by omega)
+        obtain ⟨i, m, kk⟩ := t
+        refine ⟨.node i (trim dupFirst dupLast pr.1 h pr.2).length kk :: ks, ?_⟩
+        simp only [RepL]
+        exact ⟨rfl, Rep.relabel pair dupFirst dupLast ids pids branches i i m _ kk pr.2 ht, hks⟩
+    obtain ⟨ks, hks⟩ := hl (pair default (Py.Dict.getD branches key []) cs).2 (hdom default)
+    refine ⟨.node 0 0 ks, ?_⟩
+    simp only [Rep]
+    exact ⟨cs, key, _, hc, hk, fun s => hind s default, hks⟩
+end
+end RefineAsm
